@@ -102,6 +102,16 @@ CLAIMED = {
             "coordination path include the closing future; stop is idempotent and later API calls raise the stopped/closed error; LeaveGroup "
             "is sent exactly for dynamic members with a generation. The numeric latency bound and task leaks that depend on run-time "
             "callbacks are not decided."),
+    "C10": ("check-before-use dataflow over the Cython parse tree lowered to a CFG (coverage facts cursor+n<=len created by bounds checks and "
+            "branch conditions, transferred through cursor arithmetic, killed on reassignment, intersected at joins), summary of the bounds "
+            "helper from its body (sign, overflow), constructor invariants, loop-progress analysis with lower bounds, structural checksum rules, "
+            "taint scan of input-derived sizes in the Python readers",
+            "Decides for all ~105 raw reads of the compiled decoders that a dominating check covers exactly the bytes read on the cursor value "
+            "used; that every size handed to PyBytes_FromStringAndSize / checksum routines is proven non-negative and the helper cannot overflow; "
+            "that constructors validate the minimum size first and the cursor never leaves the buffer; that every decoding loop (compiled and "
+            "Python) makes positive progress or counts a bounded counter; that all four validate_crc compare stored with computed over the "
+            "format's region; that Python readers wrap structural errors and never allocate an input-derived size. Codec libraries and "
+            "value-level outcomes are not decided."),
 }
 
 NA = {
